@@ -28,7 +28,7 @@ impl<W: Write + io::Seek> GenericZipWriter<W> {
 // client check (mine, not crate code; no contract of the crate depends on it): the contract of get_plain is strong
 // enough for a caller to write through the returned borrow and get the writer back in the same shape
 fn client_of_get_plain<W: Write + io::Seek>(g: &mut GenericZipWriter<W>, buf: &[u8]) -> (r: io::Result<()>)
-    requires gzw_plain(*old(g)),
+    requires gzw_plain(*old(g)), gzw_plain_sink(*old(g)).g_ready(),
     ensures gzw_plain(*final(g)), wr_n(&gzw_plain_sink(*old(g)), &gzw_plain_sink(*final(g)), r is Ok, buf@),
 {
     let w = g.get_plain();
